@@ -178,9 +178,12 @@ func suites(r *mon.Run, c Case) {
 		}
 	}
 	// refused digests propagate as errors, never points
-	for _, hf := range []crypto.Hash{crypto.SHA1, crypto.SHA224} {
+	for _, hf := range []crypto.Hash{crypto.MD5, crypto.SHA1, crypto.SHA224, crypto.SHA512_224} {
 		if p, err := h2c.Edwards25519_XMD_ELL2_RO(hf, ldst, lmsg); err == nil || p != nil {
 			r.Violate("h2c/Edwards25519_XMD_ELL2_RO/short-digest-accepted", fmt.Sprintf("%v", hf), c)
+		}
+		if p, err := h2c.Edwards25519_XMD_ELL2_NU(hf, ldst, lmsg); err == nil || p != nil {
+			r.Violate("h2c/Edwards25519_XMD_ELL2_NU/short-digest-accepted", fmt.Sprintf("%v", hf), c)
 		}
 		if p, err := h2c.Ristretto255_XMD_R255MAP_RO(hf, ldst, lmsg); err == nil || p != nil {
 			r.Violate("h2c/Ristretto255_XMD_R255MAP_RO/short-digest-accepted", fmt.Sprintf("%v", hf), c)
@@ -277,7 +280,7 @@ func main() {
 		}
 		for xi := range xofs {
 			for _, dl := range dstLens {
-				for _, ol := range []int{0, 1, 31, 32, 33, 136, 168, 169, 1000, 65535, 65536, 70000} {
+				for _, ol := range []int{0, 1, 31, 32, 33, 136, 168, 169, 1000, 65535, 65536, 65537, 70000, 131071, 131072, 131073, 196656} {
 					cases = append(cases, Case{Kind: "xof", XOF: xi, DST: mon.Hex(mon.Bytes(rng, dl)), Msg: mon.Hex(mon.Bytes(rng, rng.IntN(300))), OutLen: ol})
 				}
 			}
